@@ -277,7 +277,7 @@ func c15Rank(x *c15x) {
 }
 
 var c15LoopClaim = map[string]string{
-	"counted": "counted loop: the counter strictly increases on every iteration, nothing else writes it, and the bound is loop-invariant — at most bound-many iterations (arity <= 255)",
+	"counted": "counted loop: the counter strictly increases (or, counting down, decreases) on every iteration, nothing else writes it, and the bound is loop-invariant — at most bound-many iterations (arity <= 255)",
 	"bisect":  "bisection: `lo < hi` with every iteration executing lo = mid+1 or hi = mid where lo <= mid < hi — hi-lo strictly decreases",
 }
 
@@ -350,6 +350,41 @@ func (x *c15x) classifyFor(fl *core.Flow, s *ast.ForStmt) (kind, why string) {
 	if op != token.LSS && op != token.LEQ {
 		return "", "loop condition is not `<` / `<=`"
 	}
+	// --- counting down: `N < X` / `N <= X` with X a local decremented by the post statement.
+	if cv := c15LocalVar(fl, b); cv != nil && s.Post != nil && c15WrittenIn(fl, s.Post, cv) {
+		isDec := func(n ast.Node) bool {
+			switch st := n.(type) {
+			case *ast.IncDecStmt:
+				return st.Tok == token.DEC && c15LocalVar(fl, st.X) == cv
+			case *ast.AssignStmt:
+				if st.Tok == token.SUB_ASSIGN && len(st.Lhs) == 1 && c15LocalVar(fl, st.Lhs[0]) == cv {
+					v, ok := core.ConstInt64(info, st.Rhs[0])
+					return ok && v > 0
+				}
+			}
+			return false
+		}
+		if !isDec(s.Post) {
+			return "", "the right side of the loop condition is written by the post statement, but not as a decrement"
+		}
+		if c15WrittenIn(fl, s.Body, cv) {
+			return "", "the down-counter is written inside the loop body"
+		}
+		if _, isC := core.ConstInt64(info, a); !isC {
+			bv := c15LocalVar(fl, a)
+			if bv == nil || c15WrittenIn(fl, s.Body, bv) || c15WrittenIn(fl, s.Post, bv) {
+				return "", "the lower bound of the down-counting loop is not loop-invariant"
+			}
+		}
+		bt, ok := cv.Type().Underlying().(*types.Basic)
+		if !ok || bt.Info()&types.IsInteger == 0 {
+			return "", "down-counter is not an integer"
+		}
+		if bt.Info()&types.IsUnsigned != 0 && op == token.LEQ {
+			return "", "an unsigned down-counter compared `>=` wraps around below zero"
+		}
+		return "counted", "post statement decrements the counter; lower bound invariant"
+	}
 	ctrKey, ok := c15ExprKey(fl, a)
 	if !ok {
 		return "", "the left side of the loop condition is not a variable or field"
@@ -369,12 +404,37 @@ func (x *c15x) classifyFor(fl *core.Flow, s *ast.ForStmt) (kind, why string) {
 	// bound: constant, or a local that the loop (body and post) never writes.
 	boundConst, boundIsConst := core.ConstInt64(info, b)
 	if !boundIsConst {
-		bv := c15LocalVar(fl, b)
-		if bv == nil {
-			return "", "the loop bound `" + core.Src(fl.F.Prog.Fset, b) + "` is neither a constant nor a local variable (it may change between iterations)"
-		}
-		if c15WrittenIn(fl, s.Body, bv) || (s.Post != nil && c15WrittenIn(fl, s.Post, bv)) {
-			return "", "the loop bound " + bv.Name() + " is written inside the loop"
+		// the bound is an arithmetic expression over constants and locals that the loop never writes
+		why := ""
+		ast.Inspect(b, func(n ast.Node) bool {
+			if why != "" {
+				return false
+			}
+			switch e := n.(type) {
+			case *ast.Ident:
+				if tv, ok := info.Types[e]; ok && (tv.Value != nil || tv.IsType()) {
+					return true
+				}
+				bv := c15LocalVar(fl, e)
+				if bv == nil {
+					why = "the loop bound mentions `" + e.Name + "`, which is neither a constant nor a local variable (it may change between iterations)"
+				} else if c15WrittenIn(fl, s.Body, bv) || (s.Post != nil && c15WrittenIn(fl, s.Post, bv)) {
+					why = "the loop bound mentions " + bv.Name() + ", which is written inside the loop"
+				}
+			case *ast.BasicLit, *ast.BinaryExpr, *ast.ParenExpr, *ast.UnaryExpr:
+			case *ast.CallExpr:
+				if tv, ok := info.Types[e.Fun]; !ok || !tv.IsType() {
+					why = "the loop bound contains a call: `" + core.Src(fl.F.Prog.Fset, b) + "`"
+				}
+			default:
+				if _, isExpr := n.(ast.Expr); isExpr {
+					why = "the loop bound `" + core.Src(fl.F.Prog.Fset, b) + "` is not an arithmetic expression over constants and locals (it may change between iterations)"
+				}
+			}
+			return true
+		})
+		if why != "" {
+			return "", why
 		}
 	}
 	// counter type: wrap-around.
